@@ -11,6 +11,8 @@ claimed = {
              text='Every program of finite, index-addressable families (operators x boundary values x forms, ...) is run through the real analyzer, compiler and VM and compared with an independent reference evaluator; complete enumeration within the stated bounds, no sampling.', ref='5/C01'),
  'C02': dict(technique='bounded exhaustive enumeration of accepted programs on both backends; crash/deadlock/livelock detection under the controlled scheduler',
              text='Every accepted program of the enumerated families runs on VM and interpreter; Go panics are captured per thread, deadlock and livelock are terminal scheduler states, non-termination is a poll-budget overrun. Complete within the bounds.', ref='5/C02'),
+ 'C03': dict(technique='bounded exhaustive enumeration of well-typed program families plus every single-fault mutation, against a reference type checker',
+             text='13 families of well-typed programs are enumerated completely; every program must get no error diagnostic and the types recorded for its expressions must equal the reference type checker\'s; every single-fault mutant (about 95 mutators applied at every position) must get at least one error diagnostic. Both directions on every element, no sampling.', ref='5/C03'),
  'C04': dict(technique='bounded exhaustive differential enumeration (interpreter vs VM)',
              text='Every accepted program of the enumerated families is run on both backends and the observation records are compared; complete enumeration within the bounds.', ref='5/C04'),
  'C09': dict(technique='bounded exhaustive enumeration of (program, limit triple, iteration count) over a limit lattice with a differential oracle',
